@@ -124,11 +124,19 @@ where
                             Variant::VSingle(f) if is_double => Variant::VDouble(f as f64),
                             Variant::VInteger(i) => Variant::VSingle(i as f32),
                             Variant::VLong(l) => Variant::VSingle(l as f32),
-                            Variant::VDouble(d) => Variant::VSingle(d as f32),
+                            Variant::VDouble(d) if !is_double => Variant::VSingle(d as f32),
                             _ => v,
                         })
                     }
-                    Operator::Modulo => v_left.modulo(v_right),
+                    Operator::Modulo => {
+                        // the remainder of operands wider than INTEGER is a LONG
+                        let is_integer = matches!(v_left, Variant::VInteger(_))
+                            && matches!(v_right, Variant::VInteger(_));
+                        v_left.modulo(v_right).map(|v| match v {
+                            Variant::VInteger(i) if !is_integer => Variant::VLong(i as i64),
+                            _ => v,
+                        })
+                    }
                     Operator::And => v_left.and(v_right),
                     Operator::Or => v_left.or(v_right),
                 })
